@@ -39,11 +39,11 @@ def new_interp(pm: ProgramModel, vfs: VFS, depth: int = 80) -> Interp:
 
 
 def run_writer(pm: ProgramModel, cls_name: str, model: AObj, vfs: Optional[VFS] = None,
-               setup: Optional[Callable[[Interp], None]] = None) -> dict[str, Any]:
+               setup: Optional[Callable[..., None]] = None) -> dict[str, Any]:
     vfs = vfs or VFS()
     it = new_interp(pm, vfs)
     if setup:
-        setup(it)
+        setup(it, vfs)
     ci = pm.cls(cls_name)
     out: dict[str, Any] = {"vfs": vfs, "raise": None, "returned": None, "interp": it}
     try:
@@ -61,10 +61,10 @@ def run_writer(pm: ProgramModel, cls_name: str, model: AObj, vfs: Optional[VFS] 
 
 
 def run_reader(pm: ProgramModel, cls_name: str, vfs: VFS, path: str = PATH,
-               setup: Optional[Callable[[Interp], None]] = None) -> dict[str, Any]:
+               setup: Optional[Callable[..., None]] = None) -> dict[str, Any]:
     it = new_interp(pm, vfs)
     if setup:
-        setup(it)
+        setup(it, vfs)
     ci = pm.cls(cls_name)
     out: dict[str, Any] = {"model": None, "raise": None, "interp": it}
     try:
@@ -117,8 +117,8 @@ class Codec:
 
     def __init__(self, pm: ProgramModel, ctx: Any, writer: str, reader: str, prefix: str,
                  diff_opts: Optional[dict[str, Any]] = None,
-                 wsetup: Optional[Callable[[Interp], None]] = None,
-                 rsetup: Optional[Callable[[Interp], None]] = None) -> None:
+                 wsetup: Optional[Callable[..., None]] = None,
+                 rsetup: Optional[Callable[..., None]] = None) -> None:
         from .core import loc
         self.pm, self.ctx, self.W, self.R, self.prefix = pm, ctx, writer, reader, prefix
         self.diff_opts = diff_opts or {}
